@@ -1492,7 +1492,16 @@ def hyper_obligations(prop, tier):
                       tuple(f_(NLP, q) for q in ("SecondPiolaKirchhoffStressTensor", "__second_piola_block", "__geometric_tangent", "__block_grad_B", "__reorder_dofs")) + (f_(MUP, "Project_vector_to_matrix"),),
                       clause="R == t sum_p wJ B^T S and K == t sum_p wJ (B^T D B + I (x) dN^T Smat dN) with B = De grad, for arbitrary De, S, D at the generic (e, p), interleaved dof order; all Ne, nPg",
                       timeout=900))
+    for nPe in (3, 4) + ((6, 8) if tier == "thorough" else ()):
+        obs.append(Ob(f"{prop}.gp.follower.n{nPe}", ob_following_pressure, (nPe,), "P", tuple(f_(NLP, q) for q in ("FollowingPressure", "__skew", "__reorder_dofs")),
+                      clause="R == sum_p w p N_i (a x b) and K == - sum_p w p N_i (S(a) dN_s,j - S(b) dN_r,j) with a, b the deformed tangents at the generic (e, p), interleaved dofs, exact zeros under zero pressure; all Ne, nPg",
+                      timeout=900))
+    for dim, nPe in ((2, 2), (3, 3)) + (((2, 3), (3, 4), (3, 6)) if tier == "thorough" else ()):
+        for sgn in (-1, 1):
+            obs.append(Ob(f"{prop}.gp.contact.{dim}d.n{nPe}.{'closed' if sgn < 0 else 'open'}", ob_penalty_contact, (dim, nPe, sgn), "P", (f_(NLP, "PenaltyContact"),),
+                          clause="R == eps sum_p wJ <-g> N_i n and K == eps sum_p wJ H(-g) N_i N_j n (x) n at the generic (e, p) for both signs of the gap, exact zeros under zero penalty; all Ne, nPg", timeout=600))
     obs.append(Ob(f"{prop}.gp.canary.pk2", ob_pk2_operator, (2, 3, True), "P", expect=REFUTED, clause="twice the geometric stiffness must be refuted", timeout=300))
+    obs.append(Ob(f"{prop}.gp.canary.follower", ob_following_pressure, (3, True), "P", expect=REFUTED, clause="twice the follower tangent must be refuted", timeout=300))
     return obs
 
 
@@ -1532,10 +1541,115 @@ def ob_pk2_consistency_lemma(dim, nPe):
     return Verdict(DISCHARGED, backend="polynomial identity in QQ(dN, u, S)[sqrt 2], derivative by the ring", sub=n)
 
 
+@_guard
+def ob_following_pressure(nPe, canary=False):
+    """NonLinear.FollowingPressure on a surface group (all its elements): with x = X + u, a = sum_n dN_r x_n, b = sum_n dN_s x_n at the generic (e, p):
+    R[e, 3i+c] == sum_p w p N_i (a x b)_c  and  K[e, 3i+c, 3j+d] == - sum_p w p N_i (S(a)[c,d] dN_s,j - S(b)[c,d] dN_r,j), interleaved dofs; zero pressure gives exact zeros"""
+    dim = 3
+    sp = gen.Space(dict(w=(NPG,), N=(NPG, 1, nPe), dN=(NPG, 2, nPe), X=(NE, nPe, 3), ue=(NE, nPe, 3)), scalars=("pr",))
+    g, r2 = _nl_env(sp)
+    g["np"] = type("NPf", (type(g["np"]),), dict(arange=gen.NP.arange))(sp)
+    fns = module_fns(NLP, g, ["einsum", "__reorder", "__reorder_dofs", "__skew", "FollowingPressure"])
+    grp = sx.Mock("groupElem", Ne=NE, dim=2, nPe=nPe, Get_gauss=lambda mt: sx.Mock("gauss", weights=sp.arr("w")), Get_N_pg=lambda mt: sp.arr("N"), Get_dN_pg=lambda mt: sp.arr("dN"),
+                  connect=_Conn(), _global_to_local_nodes=_Table(_Conn("local")), coord=_Table(sp.arr("X")))
+    u = sx.Mock("u", reshape=lambda *a: _Table(sp.arr("ue")))
+    K0, R0 = fns["FollowingPressure"](grp, u, 0.0)
+    check(K0, sp.full((NE, dim * nPe, dim * nPe), 0), "tangent under zero pressure", f"follow:zero:K:{nPe}")
+    check(R0, sp.full((NE, dim * nPe), 0), "residual under zero pressure", f"follow:zero:R:{nPe}")
+    K, R = fns["FollowingPressure"](grp, u, sp.lift(sp.sym("pr")))
+    w, N, dN, X_, ue = (sp.arr(k) for k in ("w", "N", "dN", "X", "ue"))
+    x = X_ + ue
+    a = gen.einsum("pn,enc->epc", dN[:, 0, :], x)
+    b = gen.einsum("pn,enc->epc", dN[:, 1, :], x)
+    nrm = sp.full((NE, NPG, 3), 0)
+    for c_, (i, j) in enumerate(((1, 2), (2, 0), (0, 1))):
+        nrm[:, :, c_] = a[:, :, i] * b[:, :, j] - a[:, :, j] * b[:, :, i]
+    pr = sp.sym("pr")
+
+    def skew(v):
+        S_ = sp.full((NE, NPG, 3, 3), 0)
+        S_[:, :, 0, 1], S_[:, :, 0, 2] = -v[:, :, 2], v[:, :, 1]
+        S_[:, :, 1, 0], S_[:, :, 1, 2] = v[:, :, 2], -v[:, :, 0]
+        S_[:, :, 2, 0], S_[:, :, 2, 1] = -v[:, :, 1], v[:, :, 0]
+        return S_
+    wantR = gen.einsum("p,pi,epc->eic", w, N[:, 0, :], nrm).reshape(NE, dim * nPe) * pr
+    wantK = (gen.einsum("p,epcd,pi,pj->eicjd", w, skew(a), N[:, 0, :], dN[:, 1, :]) - gen.einsum("p,epcd,pi,pj->eicjd", w, skew(b), N[:, 0, :], dN[:, 0, :])).reshape(NE, dim * nPe, dim * nPe) * (-pr)
+    if canary:
+        wantK = wantK * 2
+    check(R, wantR, f"residual of the follower pressure (nPe {nPe})", f"follow:R:{nPe}")
+    check(K, wantK, f"tangent of the follower pressure (nPe {nPe})", f"follow:K:{nPe}")
+    return Verdict(DISCHARGED, backend=BACKEND, sub=(dim * nPe) ** 2 + dim * nPe + 2)
+
+
+@_guard
+def ob_penalty_contact(dim, nPe, sgn):
+    """NonLinear.PenaltyContact on a contact surface group (all its elements), gap < 0 (penetration) or > 0 (open) at the generic (e, p), decided at the witness, both run:
+    R[e, dim i + c] == eps sum_p wJ <-g> N_i n_c  and  K[e, dim i + c, dim j + d] == eps sum_p wJ H(-g) N_i N_j n_c n_d (the derivative of R along the normal); zero penalty -> exact zeros"""
+    decl = dict(wJ=(NE, NPG), N=(NPG, 1, nPe), gap=(NE, NPG), nrm=(NE, NPG, 3))
+
+    def space():
+        return gen.Space(decl, scalars=("pen",))
+    sp = space()
+    if sp.const(sp.arr("gap").data[0, 0]).sign() != sgn:
+        wit = dict(sp.ctx.witness)
+        wit["gap"] = -wit["gap"]
+        from vt.alg import Ctx
+        sp = space()
+        sp.ctx = Ctx(sp.ctx.names, nspare=4, witness=wit)
+        if sp.const(sp.arr("gap").data[0, 0]).sign() != sgn:
+            raise Unsupported("could not choose a witness with the requested sign of the gap")
+    g, r2 = _nl_env(sp)
+    g["np"] = type("NPf", (type(g["np"]),), dict(arange=gen.NP.arange))(sp)
+    fns = module_fns(NLP, g, ["einsum", "PenaltyContact"])
+    grp = sx.Mock("groupElem", Ne=NE, dim=dim - 1, inDim=dim, nPe=nPe, Get_weightedJacobian_e_pg=lambda mt: sp.arr("wJ"), Get_N_pg=lambda mt: sp.arr("N"))
+    gap, nrm = sp.fe("gap"), sp.fe("nrm")
+    K0, R0 = fns["PenaltyContact"](grp, 0.0, gap, nrm)
+    check(K0, sp.full((NE, dim * nPe, dim * nPe), 0), "tangent under zero penalty", f"contact:zero:K:{dim}:{nPe}")
+    check(R0, sp.full((NE, dim * nPe), 0), "residual under zero penalty", f"contact:zero:R:{dim}:{nPe}")
+    K, R = fns["PenaltyContact"](grp, sp.sym("pen"), gap, nrm)
+    wJ, N, gp_, n_ = sp.arr("wJ"), sp.arr("N")[:, 0, :], sp.arr("gap"), sp.arr("nrm")[:, :, :dim]
+    pen = sp.sym("pen")
+    if sgn < 0:
+        wantR = gen.einsum("ep,ep,pi,epc->eic", wJ, gp_ * (-1), N, n_).reshape(NE, dim * nPe) * pen
+        wantK = gen.einsum("ep,pi,pj,epc,epd->eicjd", wJ, N, N, n_, n_).reshape(NE, dim * nPe, dim * nPe) * pen
+    else:
+        wantR = sp.full((NE, dim * nPe), 0)
+        wantK = sp.full((NE, dim * nPe, dim * nPe), 0)
+    check(R, wantR, f"residual of the penalty contact (dim {dim}, nPe {nPe}, gap {'<' if sgn < 0 else '>'} 0)", f"contact:R:{dim}:{nPe}:{sgn}")
+    check(K, wantK, f"tangent of the penalty contact (dim {dim}, nPe {nPe}, gap {'<' if sgn < 0 else '>'} 0)", f"contact:K:{dim}:{nPe}:{sgn}")
+    return Verdict(DISCHARGED, backend=BACKEND + "; sign of the gap decided at the witness (both signs run)", sub=(dim * nPe) ** 2 + dim * nPe + 2)
+
+
+def ob_following_pressure_lemma(nPe):
+    """L: at a generic integration point, with a = sum_n dN_r,n x_n, b = sum_n dN_s,n x_n, x = X + u:  d[(a x b)_c]/du_(j,d) == S(a)[c,d] dN_s,j - S(b)[c,d] dN_r,j.  With the
+    contract above (K == - sum_p w p N_i (that matrix), R == sum_p w p N_i (a x b)) the tangent of the operator is minus the derivative of its force at every state."""
+    sp = gen.Space(dict(dNr=(nPe,), dNs=(nPe,), X=(nPe, 3), u=(nPe, 3)))
+    dNr, dNs, X_, u = (sp.arr(k).data for k in ("dNr", "dNs", "X", "u"))
+    zero = sp.const(0)
+    a = [sum((dNr[n] * (X_[n, c] + u[n, c]) for n in range(nPe)), zero) for c in range(3)]
+    b = [sum((dNs[n] * (X_[n, c] + u[n, c]) for n in range(nPe)), zero) for c in range(3)]
+    nrm = [a[1] * b[2] - a[2] * b[1], a[2] * b[0] - a[0] * b[2], a[0] * b[1] - a[1] * b[0]]
+    S = lambda v: [[zero, -v[2], v[1]], [v[2], zero, -v[0]], [-v[1], v[0], zero]]
+    Sa, Sb = S(a), S(b)
+    n = 0
+    for c in range(3):
+        for j in range(nPe):
+            for d in range(3):
+                got = nrm[c].diff(f"u_{j}_{d}")
+                want = Sa[c][d] * dNs[j] - Sb[c][d] * dNr[j]
+                n += 1
+                if not (got == want):
+                    raise Refuted(f"d(a x b)_{c}/du[{j},{d}] = {got!r}, the operator's matrix has {want!r}", signature=f"follow:lemma:{nPe}")
+    return Verdict(DISCHARGED, backend="polynomial identity in QQ(dN, X, u), derivative by the ring", sub=n)
+
+
 def hyper_lemma_obligations(prop, tier):
     return [Ob(f"{prop}.gp.pk2.consistency.{dim}d.n{nPe}", ob_pk2_consistency_lemma, (dim, nPe), "L", (),
                clause="geometric stiffness == derivative of B^T S at fixed S for the Green-Lagrange strain: with D = dS/dE the tangent of the PK2 operator is the derivative of its residual at every state", timeout=600)
-            for dim, nPe in ((2, 3), (3, 4))]
+            for dim, nPe in ((2, 3), (3, 4))] + \
+           [Ob(f"{prop}.gp.follower.consistency.n{nPe}", ob_following_pressure_lemma, (nPe,), "L", (),
+               clause="d(a x b)/du_(j,d) == S(a) dN_s,j - S(b) dN_r,j: with the operator contract the follower tangent is minus the derivative of the follower force at every state", timeout=300)
+            for nPe in (3, 4, 8)]
 
 
 
